@@ -16,14 +16,14 @@ CHECKS = {
    text="All 1000x1100 PLMNs x MSIN lengths 1..10: EncodeSuci decoded by an independent TS 24.501 9.11.3.4 decoder, PLMN octets compared with a reference encoder and with nasConvert.PlmnIDToNas; the PLMN placed in NG Setup / user-location IEs and the SUCI inside Registration/Deregistration Request checked on the built messages.",
    note="MSIN digits are pseudo-random from VERIF_SEED plus fixed patterns; PLMN and lengths exhaustive"),
  "C15": dict(cat="exploration", sec="5.15", tech="exhaustive enumeration of SQN pairs, AMF values and all single-bit/single-octet corruptions against an independent reference verdict",
-   text="f1..f5*, OPc and AUTN generation over one-at-a-time sweeps of K/OP/RAND and all 65536 AMF values; Milenage_check over the full product of 8x8 network/UE SQNs and, for every valid AUTN, every single-bit and single-octet corruption (same for AUTS) with the accept/resync/reject verdict computed by an independent TS 35.206 implementation.",
+   text="f1..f5*, OPc and AUTN generation over one-at-a-time sweeps of K/OP/RAND and all 65536 AMF values; Milenage_check over the full product of 8x8 network/UE SQNs and, for every valid AUTN, every single-bit and single-octet corruption (same for AUTS), and every f1..f5* case again in one sequential history in which the caller overwrites one buffer per argument in place, with the accept/resync/reject verdict computed by an independent TS 35.206 implementation.",
    note="refcrypto anchored on all eight values of TS 35.207 set 1"),
  "C16": dict(cat="exploration", sec="5.16", tech="exhaustive enumeration of every UE index 0..9999 for each initial-IMSI shape",
-   text="CreateUE called as main() calls it for every index 0..9999 from 14 initial IMSIs (leading zeros, 2-/3-digit MNC, 13..15 digits, MSINs near exhaustion) x 3 credential triples; pairwise distinctness of SUPIs and RAN-UE-NGAP-IDs, PLMN prefix, digit count, credentials and capability bits (all 4x4 algorithm pairs) checked on every context.",
+   text="CreateUE called as main() calls it for every index 0..9999 from 745 initial IMSIs (leading zeros, 2-/3-digit MNC, 11..15 digits, MSINs near exhaustion and around every power of ten of the MSIN so that a carry into every digit position occurs) ; pairwise distinctness of SUPIs and RAN-UE-NGAP-IDs, PLMN prefix, digit count, credentials and capability bits (all 4x4 algorithm pairs) checked on every context.",
    note="IMSI shapes are an alphabet, indices exhaustive"),
  "C17": dict(cat="exploration", sec="5.17", tech="exhaustive enumeration of whole input domains (2^24 AMF ids, 2^24 SDs, 1.1M PLMNs, all PCO lists <=3 units) with reference encoders and inverse checks",
    text="Whole-domain sweeps where the domain is finite (PLMN, AMF-ID, SST, SD) and structured alphabets for addresses and PCO lists, each compared with the 3GPP encoding written independently and with inverse(conversion(x)) == x.",
-   note="IPv4-mapped IPv6 texts excluded; PCO ids/contents from a small alphabet"),
+   note="IPv4-mapped IPv6 addresses judged at the octet level; PCO ids/contents from a small alphabet"),
  "C03": dict(cat="exploration", sec="5.3", tech="deviation-bounded exhaustive enumeration of NGAP values (all single deviations per message type; pairs in thorough) against an independent X.691 encoder",
    text="For each of the ~100 NGAP message and transfer-container types the all-present default value and every value that moves <=1 (quick) / <=2 (thorough) leaves to another member of its boundary alphabet, plus a complete primitive sweep over synthetic types (every range size 1..257 and the large ranges, every bit offset), negative (out-of-constraint) values that must be refused, and fragmented lengths; every library encoding is compared byte for byte with an independent ALIGNED PER encoder driven by a frozen schema.",
    note="frozen schema = hand-corrected transcription of the pinned struct tags (mc/spec/NOTES.md); refper written from X.691; empty strings under a constrained length not generated"),
@@ -34,7 +34,7 @@ CHECKS = {
    text="All 14 build-and-encode wrappers and 50 library builders are called over boundary alphabets of every identifier, NAS-PDU lengths, addresses, gNB id lengths 22..32 and announced PLMNs (as a two-step history: NG Setup build, then the message); every encoding is decoded by the independent refper decoder and by the library, and class, procedure code, carried arguments, PLMN, mandatory IEs and criticalities are compared with values typed from TS 38.413; out-of-range identifiers must be refused.",
    note="procedure codes / IE ids / criticalities typed from the specification by hand; builders are test fixtures with package-level PLMN state (sequential sweep)"),
  "C14": dict(cat="exploration", sec="5.14", tech="exhaustive enumeration of all short octet strings and of all single mutations of reference encodings, each decoded in a resource-limited shard process",
-   text="Every octet string of length <=2 (<=3 in thorough) and, for a reference encoding of every message type, every prefix, every single-octet substitution, every bit flip and adversarial two-octet length forms are decoded by ngap.Decoder in shard processes with an address-space limit and a watchdog: no panic, allocation below 64 MiB per call, return within a 10 s horizon.",
+   text="Every octet string of length <=2 (<=3 in thorough) and, for a reference encoding of every message type, every prefix, every single-octet substitution, every bit flip, adversarial two-octet length forms and every pair of octets up to 3 (thorough: 6) positions apart replaced by every pair from an adversarial alphabet are decoded by ngap.Decoder in shard processes with an address-space limit and a watchdog: no panic, allocation below 64 MiB per call, return within a 10 s horizon.",
    note="coverage-guided fuzzing (named in the property's quantifier) is another technique family and not used; allocation measured per batch and per call on suspicion"),
  "C06": dict(cat="exploration", sec="5.6", tech="exhaustive enumeration of send histories (all operation sequences up to depth 3/4 from 7 starting COUNTs x 6 algorithm pairs) judged by an independent receiver",
    text="Every history of up to 3 (4 in thorough) sends over 19 operations (message x header type x new-context flag), from starting COUNTs placed just before every wrap, for all six algorithm pairs, plus 600- and 65538-send linear histories and the counter type over all 2^24 values; an independent receiver (refnas/refcrypto) must verify the MAC under COUNT n-1, find the payload ciphered only under header types 2/4 and recover exactly the submitted plain message.",
@@ -49,19 +49,19 @@ CHECKS = {
    text="The unmodified main() and procedures run as a process against an explicit-state reference AMF (written from TS 38.413/24.501/33.501 on independent codecs) over a socketpair; every configuration/AMF-choice vector with <=1 (quick) / <=2 (thorough) deviations is executed; the model must accept every uplink message in its state and end with every UE REGISTERED, the process must exit 0 with the banner. Every model trace is by construction validated against the implementation; states and transitions of the model visited are counted.",
    note="reference AMF follows the Open5GS flow; Sleep is a no-op in the emulator build (sound because the AMF is reactive and sequential; replayed with real sleeps in C19 thorough); hook: tag verif replaces the SCTP dial by an inherited socket"),
  "C02": dict(cat="model_checking", sec="5.2", tech="explicit-state reference AMF/SMF model executed against the real emulator process; full product of repetition counts, deviation-bounded assigned values, in-process return values",
-   text="Full product of the five repetition counts in {0..2}^5 (quick) / {0..3}^5 (thorough) plus 16-/20-UE vectors, all <=2-deviation vectors of network-assigned values, and in-process NGSetup+Register+EstablishPDU over the address/TEID product; the model checks prerequisites, identifiers, PSI consistency and range, distinct SUPIs, uplink COUNT uniqueness and MACs on every message and the final state of every UE.",
+   text="Full product of the five repetition counts in {0..2}^5 (quick) / {0..3}^5 (thorough) plus 16-/20-UE vectors and a 260-UE vector (520 and 300 in thorough: every per-run 8-bit counter wraps), all <=2-deviation vectors of network-assigned values, and in-process NGSetup+Register+EstablishPDU over the address/TEID product; the model checks prerequisites, identifiers, PSI consistency and range, distinct SUPIs, uplink COUNT uniqueness and MACs on every message and the final state of every UE.",
    note="AMF keeps the AMF-UE-NGAP-ID across a Service Request and does not check the hard-coded 5G-S-TMSI/ngKSI; the AMF re-activates the UE's session in the ICS request answering a Service Request"),
  "C18": dict(cat="exploration", sec="5.18", tech="deviation-bounded exhaustive enumeration of configuration files and of all argument vectors of length 0..3; wire values observed by the reference AMF",
    text="Configuration files are generated from typed values over an alphabet per documented key (24 keys; quoting styles, escapes, empty strings, numeric extremes, both key orders), all files with <=1 (quick) / <=2 (thorough) deviations; GetConfiguration must return the typed values key by key; the values observable on the wire (IMSI, PLMN, gNB id/length/name, K/OP/OPc, S-NSSAI, gnb_gtp_ip, repetition counts) are checked by the reference AMF in closed-system runs; all 259 argument vectors of length 0..3 over a 6-symbol alphabet are run at process level (banner, usage, messages reaching the AMF).",
    note="YAML expectations for quoted scalars; traffic mode cannot start in the sandbox, only its selection is observed"),
- "C19": dict(cat="fault_enumeration", sec="5.19", tech="exhaustive enumeration of fault points (every downlink message index x 4 fault kinds x count vectors) on the real process under a syscall monitor",
-   text="For each count vector every downlink message index of the fault-free conversation is combined with {peer closes instead, ff ff ff, 00, truncated message}; the real process runs under strace, whose sendmsg/recvmsg history is the ground truth of what the emulator consumed; once it consumed the fault it must exit non-zero without the banner and without sending again, and it must always terminate within the horizon.",
-   note="strace as monitor; the message after Registration Complete is exempt for garbage (per the property); truncated messages that still decode are out of scope; thorough replays conversations with real sleeps to validate the time shim"),
+ "C19": dict(cat="fault_enumeration", sec="5.19", tech="exhaustive enumeration of fault points (every downlink message index x 9 fault kinds x count vectors) on the real process under a syscall monitor",
+   text="For each count vector every downlink message index of the fault-free conversation is combined with {peer closes instead, ff ff ff, 00, truncated message, 2047/2048/4096 octets of ff (around the emulator's read buffer), the message with its PDU choice index destroyed, with its outer length determinant beyond the end}; the real process runs under strace, whose sendmsg/recvmsg history is the ground truth of what the emulator consumed; once it consumed the fault it must exit non-zero without the banner and without sending again, and it must always terminate within the horizon.",
+   note="strace as monitor; the message after Registration Complete is exempt for garbage (per the property); faulty octets that the reference codec still decodes are out of scope; a run that outlives the horizon has its whole process group killed; thorough replays conversations with real sleeps to validate the time shim"),
  "C20": dict(cat="exploration", sec="5.20", tech="controlled cooperative scheduler over the instrumented real code: exhaustive enumeration of schedules up to a preemption bound, plus a separate free-running -race pass",
-   text="The repository packages are rebuilt through an overlay that inserts a yield at the entry of every function touching a mutated package-level variable (found by AST analysis) and replaces sync by a scheduler-aware version; for all 66 pairs of 11 operation kinds (each thread on its own UE context) every schedule with <=2 preemptions (quick) / <=3 and triples (thorough) is executed and each thread's output compared with the sequential one; deadlocks are violations. Because cooperative hand-offs hide races from the detector, the same bodies also run free on 2/8/64 goroutines in a binary built with -race.",
+   text="The repository packages are rebuilt through an overlay that inserts a yield in front of every statement that reads or writes a package-level variable mutated at run time (found by a two-pass AST analysis of the current tree: assignments also through index/field/pointer, inc/dec, address-of, method calls on visible variables, copy/append destinations, cross-package), a coarse yield at the entry of every function of the instrumented packages, and replaces sync by a scheduler-aware version (Mutex/RWMutex/Once, and a Pool that shares as much as sync.Pool's contract allows); for all 66 pairs of 11 operation kinds (each thread on its own UE context, different message types per thread) every schedule with <=2 preemptions (quick) / <=3 and triples (thorough) over the first 4/10 dynamic instances of each statement site and the first 1/2 of each function entry per thread is executed and each thread's output compared with the sequential one; deadlocks are violations. Because cooperative hand-offs hide races from the detector, the same bodies also run free on 2/8/64 goroutines in a binary built with -race.",
    note="only sequentially consistent interleavings at the inserted points; the -race pass is a dynamic detector (not an enumeration); G up to 64 applies to the free-running pass only"),
- "C08": dict(cat="exploration", sec="5.8", tech="exhaustive enumeration of optional-IE subsets (all 2^k for k<=10), IE lengths, contents and wire orders per message type, with round-trip oracles",
-   text="For each of the 44 plain message types of the frozen TS 24.501 table every optional-IE subset (all 2^k for k<=10; none/all/singles/all-but-one/pairs above), every IE at boundary lengths within its capacity with three contents, mandatory LV/LV-E lengths, every permutation of up to four optional IEs and every adjacent transposition on the wire; decode(encode(m)) == m, encode(decode(canonical bytes)) == bytes, any order decodes to the same message, and all 256 message types x EPDs: unknown types are errors.",
+ "C08": dict(cat="exploration", sec="5.8", tech="exhaustive enumeration of optional-IE subsets (all 2^k for k<=17; every k in thorough), IE lengths, contents and wire orders per message type, with round-trip oracles",
+   text="For each of the 44 plain message types of the frozen TS 24.501 table every optional-IE subset (all 2^k for k<=17, none/all/singles/all-but-one/pairs/triples above; thorough: all 2^k for every message, 18.4 M cases), every IE at boundary lengths within its capacity with three contents alone, with its neighbours and next to every other single IE, mandatory LV/LV-E lengths, every permutation of every choice of up to four optional IEs and every adjacent transposition on the wire; decode(encode(m)) == m, encode(decode(canonical bytes)) == bytes, any order decodes to the same message, and all 256 message types x EPDs: unknown types are errors.",
    note="frozen table = reviewed transcription (mc/spec/ts24501.json notes); IE values are opaque octets within capacity; SecurityProtected5GSNASMessage (an envelope, not a plain message) is covered by C06/C10"),
  "C09": dict(cat="exploration", sec="5.9", tech="exhaustive enumeration over all (message, optional IE) pairs and constructor argument alphabets against a table-driven independent encoder/parser",
    text="Same enumeration as C08 judged against an independent layout engine driven by the frozen TS 24.501 table: library bytes must equal the table layout (message type octet, mandatory order and widths, IEI/format/length width of all 159 optional IEs) and table-built bytes must decode to the intended values; the emulator's own NAS constructors (registration, authentication, security mode, UL NAS transport with every PSI 0..255, service, deregistration...) are parsed by the independent parser and compared with the arguments.",
